@@ -90,9 +90,13 @@ def judge(ctx, scratch, traces, name='trace', timeout=3000, module='Trace_Codec'
     rejects = []
     devs = {}
     skips = set()
+    ctx.last_ks = {}
     for p in r.printed:
         if isinstance(p, list) and len(p) == 4 and p[0] == 'REJECT':
             rejects.append((p[1], p[2], p[3]))
+        if isinstance(p, list) and len(p) == 5 and p[0] == 'REJECTK':
+            rejects.append((p[1], p[2], p[3]))
+            ctx.last_ks.setdefault((p[1], p[2]), []).append(p[4])
         if isinstance(p, list) and len(p) == 4 and p[0] == 'DEV':
             devs[(p[1], p[2])] = sorted(p[3])
         if isinstance(p, list) and len(p) == 3 and p[0] == 'SKIP':
@@ -217,7 +221,7 @@ def tlv_end(data, pos=0):
 
 def event_features(ev):
     f = {'op': ev['op']}
-    for k in ('codec', 'def', 'chunk', 'rules', 'why', 'st', 'exc', 'guided', 'proj', 'cls', 'mode', 'via', 'rw', 'depth'):
+    for k in ('codec', 'def', 'chunk', 'rules', 'why', 'st', 'exc', 'guided', 'proj', 'cls', 'mode', 'via', 'rw', 'depth', 'sts', 'excs'):
         if k in ev:
             f[k] = ev[k]
     if ev['op'] == 'enc' and ev.get('st') == 'ok':
@@ -290,6 +294,8 @@ def codec_common_finish(ctx, sc, cases, traces, clauses=None, name='trace'):
         f['clause'] = clause
         if (tid, idx) in ctx.last_devs:
             f['devs'] = ctx.last_devs[(tid, idx)]
+        if (tid, idx) in ctx.last_ks:
+            f['cuts'] = sorted(ctx.last_ks[(tid, idx)])
         what = '%s: event %d (%s) of case %d, type %s' % (clause, idx, _ev_brief(ev), tid, shape_key(t['T']))
         ctx.report(what, f, {'prop': ctx.prop, 'kind': 'codec', 'T': t['T'], 'v': t['v'], 'event': ev,
                              'clause': clause, 'features': f})
@@ -309,6 +315,9 @@ def _ev_brief(ev):
     if ev['op'] == 'enc':
         return 'encode %s def=%s chunk=%s -> %s' % (ev['codec'], ev.get('def'), ev.get('chunk'),
                                                     core.hexs(ev['wire'])[:80] if ev['st'] == 'ok' else ev.get('exc'))
+    if ev['op'] == 'pfxs':
+        return 'prefixes of %s by %s guided=%s via=%s -> %s' % (core.hexs(ev['wire'])[:80], ev['rules'], ev['guided'], ev['via'],
+                                                             [x for x in zip(range(len(ev['sts'])), ev['sts'], ev['excs']) if x[1] != 'underrun'][:6])
     return '%s %s %s %s -> %s %s' % (ev['op'], ev.get('rules'), ev.get('why', ''), core.hexs(ev.get('inp', []))[:80],
                                     ev.get('st'), ev.get('exc', ''))
 
